@@ -88,10 +88,38 @@ def finish(o):
 def single_preemptions(pilot, max_points=None, rng=None):
     """all (step, tid) forced switches from a pilot run"""
     out = []
-    for step, tids in pilot:
+    for entry in pilot:
+        step, tids = entry[0], entry[1]
         for tid in tids:
             out.append((step, tid))
     if max_points is not None and len(out) > max_points and rng is not None:
         out = rng.sample(out, max_points)
         out.sort()
     return out
+
+
+def double_preemptions(scn, first_filter, window=60, run=None):
+    """Targeted two-pre-emption enumeration: a first forced switch at every
+    pilot yield point accepted by first_filter(site, running_tid), then a
+    second one at each of the next `window` yield points of the thread that
+    was pre-empted first.  Yields switch dicts {step1: tid1, step2: tid2}."""
+    o = run_scenario(scn, {"kind": "np"}, pilot=True)
+    pilot = o.pilot
+    finish(o)
+    for entry in pilot:
+        step, tids, site, cur = entry
+        if not first_filter(site, cur):
+            continue
+        for tid in tids:
+            o2 = run_scenario(scn, {"kind": "forced", "switches": {str(step): tid}}, pilot=True)
+            p2 = o2.pilot
+            finish(o2)
+            seen = 0
+            for e2 in p2:
+                if e2[0] <= step or e2[3] != cur:
+                    continue
+                seen += 1
+                if seen > window:
+                    break
+                for tid2 in e2[1]:
+                    yield {str(step): tid, str(e2[0]): tid2}
